@@ -212,9 +212,12 @@ class Creators:
     elif gfa_line.record_type in ["L", "P", "C", "#"]:
       gfa_line.connect(self)
     else:
-      rt = gfa_line.record_type
-      raise gfapy.AssertionError(
-        "Invalid record type {}. This should never happen".format(rt))
+      # e.g. an instance of a record type defined by an extension
+      # (extensions are GFA2 only)
+      raise gfapy.VersionError(
+        "Version: 1.0 ({})\n".format(self._version_explanation)+
+        "Cannot add instance of incompatible line type "+
+        str(type(gfa_line)))
 
   def __add_line_GFA2(self, gfa_line):
     if isinstance(gfa_line, str):
